@@ -25,6 +25,7 @@ def run(chk):
     batcher.one_critical_section(chk, P, "C06")
     batcher.swap_rule(chk, P, "C06")
     batcher.who_may(chk, P, "C06")
+    batcher.state_stays_inside(chk, P, "C06")
     batcher.constructor_rule(chk, P, "C06")
     batcher.retry_remainder(chk, P, "C06")
     batcher.batch_error_helpers(chk, P, "C06")
